@@ -186,6 +186,35 @@ pub fn cases(tier: Tier) -> Vec<FileCase> {
             v.push(FileCase { label: format!("valid segment with byte {off} set to {m:#04x}"), kind: PathKind::File(b) });
         }
     }
+    if tier == Tier::Thorough {
+        // every single-bit flip of the first 64 bytes, and every pair of header bytes set to boundary values
+        for off in 0..64usize {
+            for bit in 0..8u8 {
+                let mut b = full.clone();
+                b[off] ^= 1 << bit;
+                v.push(FileCase { label: format!("valid segment with bit {bit} of byte {off} flipped"), kind: PathKind::File(b) });
+            }
+        }
+        for o1 in 0..16usize {
+            for o2 in (o1 + 1)..16usize {
+                for (v1, v2) in [(0u8, 0u8), (0, 0xff), (0xff, 0), (0xff, 0xff), (1, 1)] {
+                    let mut b = full.clone();
+                    b[o1] = v1;
+                    b[o2] = v2;
+                    v.push(FileCase { label: format!("valid segment with header bytes {o1},{o2} set to {v1:#04x},{v2:#04x}"), kind: PathKind::File(b) });
+                }
+            }
+        }
+        // every declared size from 0 to 80 with every file length around it
+        for size in 0..=80u32 {
+            for len in [16usize, 17, 71, 72, 73, 80] {
+                let mut b = header(M0, M1, size, 1, 2);
+                b.extend_from_slice(&old);
+                b.resize(len, 0);
+                v.push(FileCase { label: format!("valid magic/version/generation, declared size {size}, file {len} bytes"), kind: PathKind::File(b) });
+            }
+        }
+    }
     // 4. path kinds
     v.push(FileCase { label: "missing file".into(), kind: PathKind::Missing });
     v.push(FileCase { label: "missing parent directories".into(), kind: PathKind::MissingParents });
